@@ -151,6 +151,11 @@ pub enum ForgeSpec {
     Perm(usize, usize),
     /// `quot:i:cell` — add one to a value of the quotient of instance `i`
     Quot(usize, usize),
+    /// `grind:c:q` — honest witness, but the prover grinds `c` commit-phase and `q` query-phase
+    /// proof-of-work bits instead of the bit counts of the verifying parameters (a lazy prover when
+    /// fewer, an over-zealous one when more). With a positive bit count on both sides the Fiat–Shamir
+    /// transcript does not depend on the count, so the proof is otherwise well formed.
+    Grind(usize, usize),
 }
 
 impl ForgeSpec {
@@ -165,6 +170,7 @@ impl ForgeSpec {
             "tone" => ForgeSpec::TerminalOne(n(1)?),
             "perm" => ForgeSpec::Perm(n(1)?, n(2)?),
             "quot" => ForgeSpec::Quot(n(1)?, n(2)?),
+            "grind" => ForgeSpec::Grind(n(1)?, n(2)?),
             _ => return None,
         })
     }
@@ -172,8 +178,11 @@ impl ForgeSpec {
 
 /// Every forgery identifier of a batch (trace value counts, public value counts, lookup counts per
 /// instance), in a fixed order. `main` takes a subset in the quick tier.
-pub fn forge_ids(trace_lens: &[usize], pv_lens: &[usize], n_lookups: &[usize]) -> Vec<String> {
+pub fn forge_ids(trace_lens: &[usize], pv_lens: &[usize], n_lookups: &[usize], grind: &[(usize, usize)]) -> Vec<String> {
     let mut out = vec![];
+    for (c, q) in grind {
+        out.push(format!("grind:{c}:{q}"));
+    }
     for (i, &len) in trace_lens.iter().enumerate() {
         for c in 0..len {
             out.push(format!("trace:{i}:{c}:1"));
@@ -231,6 +240,111 @@ pub fn forge_quick_subset(ids: &[String], rng: &mut Rng) -> Vec<String> {
         })
         .cloned()
         .collect()
+}
+
+// ------------------------------------------------------------------------------------------
+// FRI parameters of a target; prover-side proof-of-work override
+
+/// FRI parameters of a target (the *verifying* parameters: native `FriParameters` and the circuit's
+/// `FriVerifierParams` are both made from this).
+#[derive(Clone, Copy, Debug, PartialEq)]
+pub struct FriSpec {
+    pub log_blowup: usize,
+    pub log_final: usize,
+    pub max_log_arity: usize,
+    pub queries: usize,
+    pub cpow: usize,
+    pub qpow: usize,
+}
+
+impl FriSpec {
+    /// `FriParameters::new_testing(_, 0)`
+    pub const TESTING: FriSpec = FriSpec { log_blowup: 2, log_final: 0, max_log_arity: 1, queries: 2, cpow: 1, qpow: 1 };
+    /// blowup 2, arity up to 4, final polynomial of length 2, 3 queries, 0 + 2 grinding bits
+    pub const FRI2: FriSpec = FriSpec { log_blowup: 1, log_final: 1, max_log_arity: 2, queries: 3, cpow: 0, qpow: 2 };
+    pub const fn pow(self, cpow: usize, qpow: usize) -> FriSpec {
+        FriSpec { cpow, qpow, ..self }
+    }
+    /// `(cpow, qpow, log_blowup, log_final)` as the target macros take it
+    pub const fn tuple(self) -> (usize, usize, usize, usize) {
+        (self.cpow, self.qpow, self.log_blowup, self.log_final)
+    }
+}
+
+thread_local! {
+    static PROVER_POW: std::cell::Cell<Option<(usize, usize)>> = const { std::cell::Cell::new(None) };
+    static PROVER_POW_READS: std::cell::Cell<u64> = const { std::cell::Cell::new(0) };
+}
+
+/// The grinding bit counts a config maker puts into `FriParameters`: those of the spec, unless a
+/// `PowOverride` is alive (the adversarial prover of a `grind:c:q` forgery). Verifiers are never
+/// built under an override.
+pub fn effective_pow_bits(spec: &FriSpec) -> (usize, usize) {
+    PROVER_POW_READS.with(|r| r.set(r.get() + 1));
+    PROVER_POW.with(|p| p.get()).unwrap_or((spec.cpow, spec.qpow))
+}
+
+/// How many times a config maker asked for the bit counts (to detect config makers that ignore the override).
+pub fn pow_reads() -> u64 {
+    PROVER_POW_READS.with(|r| r.get())
+}
+
+pub struct PowOverride;
+
+impl PowOverride {
+    pub fn set(c: usize, q: usize) -> Self {
+        PROVER_POW.with(|p| p.set(Some((c, q))));
+        PowOverride
+    }
+}
+
+impl Drop for PowOverride {
+    fn drop(&mut self) {
+        PROVER_POW.with(|p| p.set(None));
+    }
+}
+
+/// Prover-side grinding bit counts tried against verifying parameters `(c, q)`: one bit short, one bit only,
+/// none at all — per phase and for both phases — and more than required.
+pub fn grind_variants(c: usize, q: usize) -> Vec<(usize, usize)> {
+    let mut out: Vec<(usize, usize)> = vec![];
+    let mut add = |v: (usize, usize)| {
+        if v != (c, q) && !out.contains(&v) {
+            out.push(v);
+        }
+    };
+    // query phase under-ground
+    if q >= 1 {
+        add((c, q - 1));
+        add((c, 1.min(q - 1)));
+        add((c, 0));
+    }
+    // commit phase under-ground
+    if c >= 1 {
+        add((c - 1, q));
+        add((1.min(c - 1), q));
+        add((0, q));
+    }
+    // both
+    if c >= 2 && q >= 2 {
+        add((1, 1));
+    }
+    if c >= 1 && q >= 1 {
+        add((c - 1, q - 1));
+    }
+    // over-ground (a phase without grinding stays without: its witness is not read)
+    add((if c > 0 { c + 2 } else { 0 }, if q > 0 { q + 1 } else { 0 }));
+    out
+}
+
+/// Which phase of a `grind:c':q'` forgery is under-ground with respect to the verifying `(c, q)`.
+pub fn grind_phase(prover: (usize, usize), verifier: (usize, usize)) -> &'static str {
+    match (prover.0 < verifier.0, prover.1 < verifier.1) {
+        (true, false) => "commit",
+        (false, true) => "query",
+        (true, true) => "both",
+        (false, false) => "over",
+    }
 }
 
 /// One real proof + the real native verifier + the real circuit builder for it.
@@ -1075,6 +1189,18 @@ pub fn main(args: &crate::Args) {
                             _ => {}
                         }
                     }
+                    // every pair of prover-side grinding bit counts up to one more than demanded
+                    if sel.iter().any(|id| id.starts_with("grind:")) {
+                        let (c, q) = target.pow_bits;
+                        for pc in 0..=c + 1 {
+                            for pq in 0..=q + 1 {
+                                let id = format!("grind:{pc}:{pq}");
+                                if (pc, pq) != (c, q) && !sel.contains(&id) && !extra.contains(&id) {
+                                    extra.push(id);
+                                }
+                            }
+                        }
+                    }
                     sel.extend(extra);
                 }
                 ids.extend(sel.into_iter().map(|id| (id, None)));
@@ -1082,6 +1208,13 @@ pub fn main(args: &crate::Args) {
             // checks seen decisive (native rejection names the check, both circuit modes reject)
             let mut decisive_ood: std::collections::BTreeSet<usize> = Default::default();
             let mut decisive_tsum = false;
+            // proof-of-work phases seen decisive: an under-ground proof of that phase alone is rejected natively
+            // with `InvalidPowWitness` and by both circuits (the honest proof being accepted by all)
+            // (available: some such proof exists, i.e. the native rejection is the PoW check and nothing else;
+            // decisive: every one of them is rejected by both circuits)
+            let mut avail_pow = [false, false];
+            let mut decisive_pow = [true, true];
+            let has_grind = target.forge_ids.iter().any(|id| id.starts_with("grind:"));
             let full_campaign = generate && target.drift.is_none();
             for (id, from_corpus) in ids {
                 let kind = id.split(':').next().unwrap_or("").to_string();
@@ -1103,6 +1236,20 @@ pub fn main(args: &crate::Args) {
                     samples.push(json!({"target": tname, "forge": id, "native": a.native.tag(), "circuit": a.circ.tag(),
                         "circuit_mode": a.mode}));
                 }
+                if let Some(ForgeSpec::Grind(pc, pq)) = ForgeSpec::parse(&id) {
+                    let phase = grind_phase((pc, pq), target.pow_bits);
+                    bump(&mut hist, &format!("forge-pow:{fam}:{phase}:{}/{}", a.native.tag(), a.circ.tag()));
+                    let pow_reject = matches!(&a.native, Native::Reject(_)) && a.native_full.contains("InvalidPowWitness");
+                    if pow_reject {
+                        bump(&mut hist, &format!("forge-pow-native-reject:{fam}:{phase}"));
+                    }
+                    if let Some(k) = ["commit", "query"].iter().position(|p| *p == phase) {
+                        if pow_reject {
+                            avail_pow[k] = true;
+                            decisive_pow[k] &= !a.circ.accepts() && !b.circ.accepts();
+                        }
+                    }
+                }
                 if !a.circ.accepts() && !b.circ.accepts() {
                     if let Native::Reject(r) = &a.native {
                         if r.contains("TerminalSumNonZero") {
@@ -1118,8 +1265,12 @@ pub fn main(args: &crate::Args) {
                     if jd.native.accepts() != jd.circ.accepts() && !hit {
                         hit = true;
                         let class = if jd.circ.accepts() {
-                            format!("native-rejects-circuit-accepts:{fam}:forged-{kind}:{}",
-                                jd.native.tag().trim_start_matches("reject:"))
+                            // (the batch verifier nests the FRI error one level deeper than the tag shows)
+                            let mut err = jd.native.tag().trim_start_matches("reject:").to_string();
+                            if jd.native_full.contains("InvalidPowWitness") && !err.contains("InvalidPowWitness") {
+                                err += "/InvalidPowWitness";
+                            }
+                            format!("native-rejects-circuit-accepts:{fam}:forged-{kind}:{err}")
                         } else {
                             format!("native-accepts-circuit-rejects:{fam}:forged-{kind}:{}", jd.circ.tag())
                         };
@@ -1148,6 +1299,25 @@ pub fn main(args: &crate::Args) {
                     decisive_ood.iter().map(|i| i.to_string()).collect::<Vec<_>>().join(",")
                 };
                 writeln!(imp, "chk ood={} tsum={}", ood, if decisive_tsum { n_terminals } else { 0 }).unwrap();
+                // model correspondence of the proof-of-work events (driver command `pows`): bit count × number of
+                // witnesses per phase, as far as the under-ground proofs showed them decisive
+                if has_grind {
+                    // `pows <commit measurable> <query measurable> …shape…`: measurable = the native verifier rejected an
+                    // under-ground proof of that phase alone with `InvalidPowWitness` (a fact about the inputs)
+                    writeln!(cases, "{}", target.shape.replacen("shape", &format!("pows {} {}", avail_pow[0] as u8, avail_pow[1] as u8), 1)).unwrap();
+                    let fri_rounds: usize = target.shape.split(' ').nth(6).and_then(|x| x.parse().ok()).unwrap_or(0);
+                    let (c, q) = target.pow_bits;
+                    let show = |k: usize, bits: usize, count: usize| -> String {
+                        if !avail_pow[k] {
+                            "-".to_string()
+                        } else if decisive_pow[k] && count > 0 {
+                            format!("{bits}x{count}")
+                        } else {
+                            "0x0".to_string()
+                        }
+                    };
+                    writeln!(imp, "pw commit={} query={}", show(0, c, fri_rounds), show(1, q, 1)).unwrap();
+                }
             }
         }
         per_target.push(json!({"target": tname, "native": hn.tag(), "circuit": hc.tag(), "leaves": all.len(),
